@@ -6,6 +6,7 @@ judged by an independent CIF 1.1 parser against a reference model of the program
 from __future__ import annotations
 
 import copy
+import json
 import math
 import os
 import warnings
@@ -428,7 +429,7 @@ def generate(rng, tier, i):
         # a second caller saves another (earlier saved) object between two lines of this save
         at = rng.randrange(2, n_saves + 1)
         scn["interleave"] = {"at_save": at, "other_save": rng.randrange(1, at), "frac": rng.random(),
-                             "where": rng.choice(["line", "write"])}
+                             "where": rng.choice(["line", "write", "site"])}
     return scn
 
 
@@ -545,7 +546,32 @@ class CifEngine(Engine):
         seams.install_clock(cif)
         signal.signal(signal.SIGXFSZ, signal.SIG_IGN)
 
+    SWEEP_RUNS = 4
+
+    def selftest_indices(self, n):
+        return [0] + list(range(self.SWEEP_RUNS, self.SWEEP_RUNS + n - 1))
+
     def generate(self, rng, tier, i):
+        import random
+
+        if 0 <= i < self.SWEEP_RUNS:
+            # enumerated interleavings for one canonical program (a builder with authors and
+            # roles, reducers and powder data, saved twice): every distinct line of cif.py and
+            # every write() of the last save is used once as the point where the other save runs
+            for seed in range(7000, 9000):
+                scn = generate(random.Random(seed), tier, -1)
+                kinds = [o["op"] for o in scn["ops"]]
+                text = json.dumps(scn["ops"])
+                saves = [o for o in scn["ops"] if o["op"] == "save"]
+                if (len(saves) >= 2 and "with_authors" in kinds and "with_powder" in kinds and '"role": "' in text
+                        and "\\n;" not in text and '"name": ""' not in text and not any(
+                            o["op"] in ("loop_set_bad", "block_bad_name", "cif_bad_name", "with_powder_bad") for o in scn["ops"])):
+                    break
+            n_saves = sum(o["op"] in ("save", "save_blocks") for o in scn["ops"])
+            scn.update(sink="mem", faults={"mode": "none"})
+            scn.pop("inplace", None)
+            scn["interleave"] = {"at_save": n_saves, "other_save": n_saves - 1, "sweep": [i, self.SWEEP_RUNS]}
+            return scn
         scn = generate(rng, tier, i)
         if rng.random() < 0.1:
             scn["locale"] = "C"  # default text encoding of open() is strict ASCII
@@ -1013,58 +1039,82 @@ class CifEngine(Engine):
         ctx.count("inplace_histories_checked")
 
     def _interleaved_save(self, scn, ctx, op, lib, mod, cif, il, n):
-        """Two callers: while this save is between two of its lines, another caller saves an
-        object that was saved before (simulated thread switch at a scenario-chosen line
-        ordinal inside scippneutron/io/cif.py).  Both documents must be what was supplied."""
+        """Two callers: while this save is at one of its scheduling points -- a line boundary of
+        scippneutron/io/cif.py (by event ordinal or first execution of a distinct line) or inside
+        one of its write() calls -- another caller saves an object that was saved before.  Both
+        documents must be what was supplied.  With il['sweep'] every distinct line and every
+        write() of this save is used once."""
         saves = [o for o in scn["ops"] if o["op"] in ("save", "save_blocks")]
         other = saves[il["other_save"] - 1]
         prefixes = (cif.__file__,)
         deltas = seams.CLOCK.deltas
         seams.CLOCK.deltas = [0.0]  # both callers read the same instant (dates are in the model)
         try:
-            at_write = il.get("where") == "write"
-            kind = "preempt_in_write" if at_write else "preempt_in_save"
             counter = seams.Preemptor(prefixes, {})
             csink = seams.SimStringIO(ctx=ctx)
             _, e0 = counter.run(lambda: self._save_call(op, lib, csink, cif))
             if e0 is not None:
                 return
-            total = csink.sim_writes if at_write else counter.ordinal
-            at = min(total - 1, int(il["frac"] * total)) if total else 0
-            exp_m, exp_o = self._expected_doc(op, mod), self._expected_doc(other, mod)
-            sink_o = seams.SimStringIO(ctx=ctx)
-            state = {}
-            ctx.fault_configured(kind)
-
-            def cb(frame):
-                where = "write" if at_write else frame.f_code.co_name
-                ctx.log("preempt", where, at, total)
-                ctx.site("preempt@cif:" + where)
-                state["res"] = self._save_call(other, lib, sink_o, cif)
-
-            if at_write:
-                # this caller blocks in its at-th write(); the other caller's save runs meanwhile
-                sink_m = seams.SimStringIO(ctx=ctx, yield_at={at: cb})
-                _, e1 = self._save_call(op, lib, sink_m, cif)
+            totals = {"line": counter.ordinal, "site": len(counter.site_order), "write": csink.sim_writes}
+            if il.get("sweep"):
+                part, of = il["sweep"]
+                pts = [("site", k) for k in range(totals["site"])] + [("write", k) for k in range(totals["write"])]
+                pts = [pt for m, pt in enumerate(pts) if m % of == part]
+                ctx.count("interleaving_points_enumerated", len(pts))
             else:
-                sink_m = seams.SimStringIO(ctx=ctx)
-                _, e1 = seams.Preemptor(prefixes, {at: cb}).run(lambda: self._save_call(op, lib, sink_m, cif))
+                where = il.get("where", "line")
+                total = totals[where]
+                pts = [(where, il["at"] if "at" in il else (min(total - 1, int(il["frac"] * total)) if total else 0))]
+            for where, at in pts:
+                if ctx.violations:
+                    break
+                self._interleave_once(ctx, op, other, lib, mod, cif, il, n, where, at, totals[where], prefixes)
         finally:
             seams.CLOCK.deltas = deltas
+
+    def _interleave_once(self, ctx, op, other, lib, mod, cif, il, n, where, at, total, prefixes):
+        kind = {"line": "preempt_in_save", "site": "preempt_at_source_line", "write": "preempt_in_write"}[where]
+        exp_m, exp_o = self._expected_doc(op, mod), self._expected_doc(other, mod)
+        sink_o = seams.SimStringIO(ctx=ctx)
+        state = {}
+        ctx.fault_configured(kind)
+
+        def cb(frame):
+            at_s = "write" if where == "write" else f"{frame.f_code.co_name}:{frame.f_lineno}"
+            ctx.log("preempt", at_s, where, at, total)
+            ctx.site("preempt@cif:" + ("write" if where == "write" else frame.f_code.co_name))
+            state["at"] = at_s
+            state["res"] = self._save_call(other, lib, sink_o, cif)
+
+        if where == "write":
+            # this caller blocks in its at-th write(); the other caller's save runs meanwhile
+            sink_m = seams.SimStringIO(ctx=ctx, yield_at={at: cb})
+            _, e1 = self._save_call(op, lib, sink_m, cif)
+        else:
+            sink_m = seams.SimStringIO(ctx=ctx)
+            pre = seams.Preemptor(prefixes, {at: cb} if where == "line" else {},
+                                  site_points={at: cb} if where == "site" else None)
+            pre.once = True
+            _, e1 = pre.run(lambda: self._save_call(op, lib, sink_m, cif))
         if "res" not in state:
             ctx.probe("preemption_point_not_reached")
             return
         ctx.fault_fired(kind)
         ctx.probe("two_saves_interleaved")
+        desc = f"{where} {at}/{total} = {state['at']}"
+        hint = {"il_where": where, "il_at": at}
+        n0 = len(ctx.violations)
         e2 = state["res"][1]
         for who, e in (("pre-empted", e1), ("pre-empting", e2)):
             if e is not None:
-                ctx.violate("save_raised", f"save #{n} interleaved at line event {at}/{total}: the {who} "
+                ctx.violate("save_raised", f"save #{n} interleaved at {desc}: the {who} "
                             f"caller's save raised {e}", kind="interleaved_save_raised", exc=e.name,
-                            hazards=sorted(self._hz), found_by="interleaving")
+                            hazards=sorted(self._hz), found_by="interleaving", _hint=hint)
                 return
-        self._judge(ctx, sink_m.getvalue(), exp_m, f"save #{n}, pre-empted at line event {at}/{total}")
-        self._judge(ctx, sink_o.getvalue(), exp_o, f"save #{il['other_save']} run inside save #{n}")
+        self._judge(ctx, sink_m.getvalue(), exp_m, f"save #{n}, pre-empted at {desc}")
+        self._judge(ctx, sink_o.getvalue(), exp_o, f"save #{il['other_save']} run inside save #{n} ({desc})")
+        for v in ctx.violations[n0:]:
+            v.setdefault("hint", {}).update(hint)
 
     def _found_by(self):
         return "workload value" if self._hz - {"empty", "quote", "both_quotes", "non_ascii", "multiline"} else "program"
@@ -1331,6 +1381,12 @@ class CifEngine(Engine):
         if s["faults"]["mode"] != "none":
             c = copy.deepcopy(s)
             c["faults"] = {"mode": "none"}
+            yield c
+        if s.get("interleave") and "il_where" in hint and (
+                s["interleave"].get("sweep") or s["interleave"].get("at") != hint["il_at"]):
+            c = copy.deepcopy(s)
+            c["interleave"] = {k: v for k, v in s["interleave"].items() if k not in ("sweep", "frac")}
+            c["interleave"].update(where=hint["il_where"], at=hint["il_at"])
             yield c
         if s.get("interleave"):
             c = copy.deepcopy(s)
